@@ -97,6 +97,10 @@ func (e *Engine) VerifyFunc(fn *ssa.Function, fc *contract.Func) (rep *FuncRepor
 	if rep.Unsupp != "" {
 		panic(unsupported(rep.Unsupp))
 	}
+	if len(fc.Regions) > 0 {
+		e.verifyRegions(fn, fc, rep)
+		return rep
+	}
 	st := &State{cellVals: map[*Cell]Value{}, heaps: map[string]*smt.Term{}, facts: map[*smt.Term]bool{}, globals: map[*ssa.Global]Value{}, nonnil: map[*smt.Term]bool{}}
 	st.alloc = smt.Var("alloc@0", smt.Int)
 	st.assume(smt.Lt(smt.IntC(0), st.alloc))
